@@ -634,6 +634,8 @@ def loop_case(ctx, c, record=True):
             ctx.count('exact-pixel-corner')
         if c['a'] / c['b'] >= 3.0:
             ctx.count('axis-ratio>=3')
+        if c.get('kind'):
+            ctx.count('kind:' + c['kind'])
         if bad:
             report(ctx, 'spec', dict(c, pretty=pretty(c)),
                    dict(failed=bad, measured=m, truth=truth, tolerances=TOL), signature(c, bad, m, img))
@@ -776,7 +778,11 @@ def gen_case(rng, quick=True, hard=False):
         # centred EXACTLY on a pixel corner, mirror pixels bit-equal (open finding C01-split-summit)
         c['xy'] = [round(x) + 0.5, round(y) + 0.5]
         c['symmetric'] = True
-    elif u < 0.07:
+    elif u < 0.12:
+        thin_aligned(rng, c)
+    elif u < 0.17:
+        coarse_beam_corner(rng, c)
+    elif u < 0.19:
         # a thin oblique ridge: axis ratio 3..5 (open finding C01-split-summit)
         c['n'] = [128, 120]
         c['a'] = beam[0] * 3600.0 * rng.uniform(3.0, 4.5)
@@ -784,6 +790,43 @@ def gen_case(rng, quick=True, hard=False):
         c['pa'] = rng.choice([30.0, -60.0, rng.uniform(-89.0, 89.0)])
         c['xy'] = [rng.uniform(50.0, 78.0), rng.uniform(50.0, 70.0)]
         c['docov'] = False
+    return c
+
+
+def thin_aligned(rng, c):
+    """axis ratio 3 ... 6.5 with the major axis on or within a few degrees of a pixel axis (PA 0 / 90: CDELT1 = -CDELT2, no
+    rotation), circular beam, minor axis = beam; forced S/N 20 ... 200 (the island, hence the shape limits, shrink with S/N)"""
+    s = c['scale']
+    bpx = rng.uniform(2.8, 3.6)
+    c['beam'] = [bpx * s, bpx * s, 0.0]
+    ratio = rng.uniform(3.0, 6.5)
+    c['b'] = bpx * s * 3600.0
+    c['a'] = ratio * c['b']
+    c['pa'] = rng.choice([0.0, 90.0, 0.0, 90.0, rng.uniform(-4.0, 4.0), 90.0 - rng.uniform(0.0, 4.0), -90.0 + rng.uniform(0.01, 4.0)])
+    half = 0.8 * ratio * bpx + 6.0
+    c['n'] = [int(2 * half + 40), int(2 * half + 34)]
+    c['crpix'] = [c['n'][0] / 2.0, c['n'][1] / 2.0]
+    c['xy'] = [c['n'][0] / 2.0 + rng.uniform(-8, 8), c['n'][1] / 2.0 + rng.uniform(-8, 8)]
+    c['docov'] = False
+    c['snr'] = rng.choice([20.0, 100.0, 200.0])
+    c['kind'] = 'thin-aligned'
+    return c
+
+
+def coarse_beam_corner(rng, c):
+    """an elongated beam (a/b 1.5 ... 3) sampled coarsely across its minor axis (2 ... 2.5 px FWHM), a beam-shaped (point)
+    source centred near a pixel corner (fractional offsets 0.45 ... 0.55 in x and y), high S/N: the largest pixelisation loss"""
+    s = c['scale']
+    bmin = rng.uniform(2.0, 2.5)
+    bmaj = bmin * rng.uniform(1.5, 3.0)
+    bpa = rng.choice([0.0, 90.0, rng.uniform(-90.0, 90.0)])
+    c['beam'] = [bmaj * s, bmin * s, bpa]
+    c['a'], c['b'], c['pa'] = bmaj * s * 3600.0, bmin * s * 3600.0, bpa if bpa > -90.0 else 90.0
+    c['n'] = [72, 64]
+    c['crpix'] = [36.0, 32.0]
+    c['xy'] = [float(rng.randint(24, 48)) + rng.uniform(0.45, 0.55), float(rng.randint(22, 42)) + rng.uniform(0.45, 0.55)]
+    c['snr'] = rng.choice([200.0, 1000.0])
+    c['kind'] = 'coarse-beam-corner'
     return c
 
 
@@ -1300,7 +1343,7 @@ def run(ctx):
     corr_palimit(ctx)
     errors_witness(ctx)
     errors_position_witness(ctx)
-    n = 260 if ctx.quick else 1500
+    n = 230 if ctx.quick else 1500
     worst = {}
     for k in range(n):
         c = gen_case(ctx.rng, ctx.quick)
@@ -1409,9 +1452,16 @@ def search(ctx):
     common.use_repo()
     _quiet()
     found = None
-    for k in range(60 if ctx.quick else 400):
+    focus = search_focus(ctx)
+    if focus:
+        ctx.note("search aimed at " + ', '.join(f.__name__ for f in focus) + " (the part of the model that broke)")
+    ntarget = (40 if ctx.quick else 200) if focus else 0
+    for k in range(ntarget + (60 if ctx.quick else 400)):
         c = gen_case(ctx.rng, True, hard=True)
-        if k < 10:   # the plain cases first: they are the easiest to read in a replay
+        if k < ntarget:
+            c.pop('symmetric', None)
+            c = focus[k % len(focus)](ctx.rng, c)
+        elif k - ntarget < 10:   # the plain cases first: they are the easiest to read in a replay
             c.update(proj=PROJS[k % 5], crval=[180.0, -30.0], crpix=[c['n'][0] / 2.0, c['n'][1] / 2.0], pa=35.0,
                      b=max(c['beam'][0] * 3600, 0.6 * c['a']), peak=1.0, docov=(k >= 5), snr=200.0)
         bad, m = loop_case(ctx, c, record=False)
@@ -1429,6 +1479,23 @@ def search(ctx):
         loop_case(ctx, c2)            # records the failure (kind 'spec') with its measurements
         if not any(f['kind'] == 'spec' for f in ctx.failures):
             loop_case(ctx, c)
+
+
+def search_focus(ctx):
+    """which generators exercise the part of the model that no longer checks: the names of the broken obligations /
+    untranslatable leaves (notes written by `check`) and the signatures/details of the correspondence failures"""
+    text = ' '.join(ctx.notes) + ' ' + ' '.join(str(f.get('detail')) + str(f.get('signature')) for f in ctx.failures if f['kind'] == 'corr')
+    broke = [l for l in text.replace("'", ' ').replace(',', ' ').replace(':', ' ').replace('[', ' ').replace(']', ' ').split()]
+    shape = {'sxMax', 'syMax', 'sxMin', 'syMin', 'sxInit', 'syInit', 'sMax_eq_hand', 'sMin_eq_hand', 'sInit_eq_hand',
+             'sx_max', 'sy_max', 'sx_min', 'sy_min', 'sx', 'sy'}
+    amp = {'sampling', 'ampMinPos', 'ampMaxPos', 'ampMinNeg', 'ampMaxNeg', 'sampling_eq_hand', 'ampMinPos_eq_hand',
+           'ampMaxPos_eq_hand', 'ampMinNeg_eq_hand', 'ampMaxNeg_eq_hand', 'amp_min', 'amp_max', 'xoLim', 'xo_lim', 'xoLim_eq_hand'}
+    focus = []
+    if shape & set(broke):
+        focus.append(thin_aligned)
+    if amp & set(broke):
+        focus.append(coarse_beam_corner)
+    return focus
 
 
 def replay(ctx, rec):
